@@ -207,8 +207,12 @@ def r1(ctx):
                 'from fuel surface (column 4)', key=ct.full + ' | chaining')
     qt = U.single_def(ct.node, 'q_tot')
     qd = U.single_def(ct.node, 'q_dens')
-    ctx.require(qt is not None and src(qt) == 'q_lin * dz' and qd is not None
-                and src(qd) == "q_lin / self.fuel['area']", 'C13.R1', ct,
+    # the product is matched modulo commutativity (dz * q_lin is the same
+    # elementwise product); the quotient is matched literally
+    ctx.require(qt is not None and match('q_lin * dz', qt) is not None
+                and qd is not None
+                and match("q_lin / self.fuel['area']", qd) is not None,
+                'C13.R1', ct,
                 qt if qt is not None else ct.node,
                 'heat per step = q_lin * dz; power density = q_lin / area',
                 key=ct.full + ' | power split')
